@@ -273,6 +273,8 @@ func checkC09(w *World, r *Report) {
 	r.Try(func() { checkLockHygiene(w, r, la) })
 	r.Try(func() { checkTypestate(w, r, la) })
 	r.Try(func() { ruleSwap(w, r, "R09.3s", la) })
+	r.Rule("R09.3n", 2, "the closed marker the insertion sites re-check (table == nil) is established on every path of Close past the gate")
+	r.Try(func() { ruleClosedMarkerOnAllPaths(w, r, "R09.3n") })
 	r.Try(func() { ruleAtomicRMW(w, r, "R09.5", la) })
 	r.Try(func() { checkGoStatements(w, r) })
 }
